@@ -457,6 +457,7 @@ func Sources(ctx context.Context, pgp *pgxpool.Pool) ([]Source, error) {
 	if err != nil {
 		return nil, fmt.Errorf("querying sources: %w", err)
 	}
+	defer rows.Close()
 	for rows.Next() {
 		var (
 			s      Source
@@ -547,6 +548,7 @@ func Integrations(ctx context.Context, pg wpg.Conn) ([]Integration, error) {
 	if err != nil {
 		return nil, fmt.Errorf("querying integrations: %w", err)
 	}
+	defer rows.Close()
 	for rows.Next() {
 		var buf = []byte{}
 		if err := rows.Scan(&buf); err != nil {
